@@ -111,6 +111,7 @@ class TwinServer:
         self.deadline = time.time() + wall
         self.stop = False
         self.threads = []
+        self.accepted = 0
         self.t = threading.Thread(target=self._accept_loop, daemon=True)
         self.t.start()
 
@@ -123,6 +124,7 @@ class TwinServer:
                 continue
             except OSError:
                 return
+            self.accepted += 1
             res = self.server.accept(self.world, None)
             if isinstance(res, int) or res == 'timeout':
                 # a refusal cannot be produced on an accepted socket; callers do not validate such plans
@@ -170,11 +172,13 @@ def real_server_case(make_server, opts, faults=None, segment=0):
         return None
     tw = TwinServer(make_server(), faults, segment=segment)
     try:
-        argv = list(opts) + ['-t', '1', '--skip-rate-test', '127.0.0.1:%d' % tw.port]
+        argv = [o.replace('{port}', str(tw.port)) for o in opts]
+        if not any('127.0.0.1' in o for o in argv):
+            argv = argv + ['-t', '1', '--skip-rate-test', '127.0.0.1:%d' % tw.port]
         rs, rout, rerr = run_real_cli(argv)
     finally:
         tw.close()
-    return argv, tw.port, rs, rout, rerr
+    return argv, tw.port, rs, rout, rerr, tw.accepted
 
 
 def model_server_case(make_server, argv, port, faults=None, segment=0):
@@ -205,7 +209,7 @@ def real_client_case(make_client, opts):
     th.start()
     rs, rout, rerr = run_real_cli(argv)
     th.join(5)
-    return argv, port, rs, rout, rerr
+    return argv, port, rs, rout, rerr, 1
 
 
 def model_client_case(make_client, argv):
@@ -255,10 +259,11 @@ def validate_many(cases, threads=8, retries=1):
                 c['_last'] = {'error': 'real CLI timed out', 'label': c.get('label')}
                 continue
             m = model(c, r)
-            if m.status == r[2] and _norm(m.stdout) == _norm(r[3]):
+            nconn = len(m.world.conns)
+            if m.status == r[2] and _norm(m.stdout) == _norm(r[3]) and (nconn == r[5] or c.get('kind') == 'client'):
                 agree += 1
             else:
-                c['_last'] = {'label': c.get('label'), 'argv': r[0], 'model_status': m.status, 'real_status': r[2],
+                c['_last'] = {'label': c.get('label'), 'argv': r[0], 'model_status': m.status, 'real_status': r[2], 'model_connections': nconn, 'real_connections': r[5],
                               'model_stdout': m.stdout[-300:], 'real_stdout': r[3][-300:], 'real_stderr': r[4][-200:]}
                 again.append(c)
         pending = again
@@ -267,3 +272,40 @@ def validate_many(cases, threads=8, retries=1):
     for c in pending:
         mism.append(c['_last'])
     return agree, mism, skipped
+
+
+def validate_multi(makers, extra_opts=(), threads=1):
+    """Several twin servers on 127.0.0.1:<port_i>, real CLI with -T file --threads N; model run with the same file.
+    With one worker thread the block order is deterministic and stdout must be equal; otherwise blocks are compared as a multiset.
+    -> (agree, info)"""
+    import tempfile
+    twins = [TwinServer(mk(), getattr(mk, 'faults', {}) or {}) for mk in makers]
+    fd, path = tempfile.mkstemp(prefix='verif-targets-', suffix='.txt')
+    try:
+        with os.fdopen(fd, 'w') as f:
+            for tw in twins:
+                f.write('127.0.0.1:%d\n' % tw.port)
+        argv = list(extra_opts) + ['-n', '-t', '1', '--skip-rate-test', '-T', path, '--threads', str(threads)]
+        rs, rout, rerr = run_real_cli(argv)
+        for tw in twins:
+            tw.close()
+        servers = {}
+        faults = {}
+        for mk, tw in zip(makers, twins):
+            servers[('127.0.0.1', tw.port)] = mk()
+            faults.update(getattr(mk, 'faults', {}) or {})
+        w = vnet.World(servers=servers, faults=faults)
+        m = runner.run_cli(argv, w)
+    finally:
+        for tw in twins:
+            tw.close()
+        try:
+            os.unlink(path)
+        except OSError:
+            pass
+    sep = '-' * 80
+    if threads == 1:
+        ok = m.status == rs and _norm(m.stdout) == _norm(rout)
+    else:
+        ok = m.status == rs and sorted(_norm(b) for b in m.stdout.split(sep)) == sorted(_norm(b) for b in rout.split(sep))
+    return ok, {'argv': argv, 'model_status': m.status, 'real_status': rs, 'model_stdout': m.stdout[-300:], 'real_stdout': rout[-300:], 'real_stderr': rerr[-200:]}
